@@ -630,7 +630,7 @@ pub fn run(tier: Tier, seed: u64) -> i32 {
         graphemes_case("graphemes-random", &s, l)
     });
     ctx.finish(&check_case, RULE, ASSUMPTIONS, &|l| {
-        for k in [
+        for k in ["wrapped_input_comparisons", 
             "kind:str", "kind:with_context", "kind:map_span", "kind:array", "kind:stream", "kind:stream_boxed", "kind:stream_exact_size_boxed", "kind:slice_map", "kind:stream_map", "kind:iter_input", "kind:io_input", "kind:io_input_after_header",
             "backtracked_over_consumed_tokens", "long_backtrack_across_batch_boundary", "long_io_seek_back_beyond_bufreader", "graphemes_multi_code_point_cluster", "accepted", "rejected", "recovered",
         ] {
